@@ -419,7 +419,9 @@ impl<'a> Interp<'a> {
                             let v = match op {
                                 BinOp::Add => x + y,
                                 BinOp::Sub => x - y,
-                                BinOp::Mul => x * y,
+                                // u64 x u64 does not fit i128: the low 64 bits of the wrapped
+                                // product are what `wrap` keeps
+                                BinOp::Mul => x.wrapping_mul(*y),
                                 _ => {
                                     if *y == 0 {
                                         return Err(Stop::Fail(FailKind::DivZero));
